@@ -307,6 +307,15 @@ where
                 if ty.mall.signed && !has_sig {
                     v("signed", "typed signed but it succeeded on an input without any valid signature");
                 }
+                // n: no satisfaction has the empty vector as its top element (what makes `j:X` sound).
+                // `bindings[0]` is the element that was on top; only a value the execution bound is judged.
+                if base != LBase::W && matches!(ty.corr.input, Input::OneNonZero | Input::AnyNonZero) {
+                    if let Some(Some(top)) = m.bindings.first().map(|b| b.as_ref()) {
+                        if top.is_empty() {
+                            v("input:n", "typed nonzero (n) but it succeeded on an input whose top element is the empty vector");
+                        }
+                    }
+                }
             }
             if dissat {
                 obs.dissat += 1;
@@ -414,6 +423,7 @@ fn controls(world: &World, rep: &mut Report, scfg: &SearchCfg) {
         ("older claimed signed", Frag::Older(5), Box::new(|t: &mut Type| t.mall.signed = true), "signed"),
         ("c:pk_k claimed zero-argument", pk(0), Box::new(|t: &mut Type| t.corr.input = Input::Zero), "input:z"),
         ("multi claimed one-argument", Frag::Multi(2, vec![k(0), k(1), k(2)]), Box::new(|t: &mut Type| t.corr.input = Input::One), "input:o"),
+        ("or_i(pk,pk) claimed nonzero", Frag::OrI(Box::new(pk(0)), Box::new(pk(1))), Box::new(|t: &mut Type| t.corr.input = Input::AnyNonZero), "input:n"),
         ("1 claimed dissatisfiable", Frag::True, Box::new(|t: &mut Type| t.corr.dissatisfiable = true), "dissatisfiable"),
         ("and_v(v:pk,after) claimed dissatisfiable", Frag::AndV(Box::new(Frag::Verify(Box::new(pk(0)))), Box::new(Frag::After(7))), Box::new(|t: &mut Type| t.corr.dissatisfiable = true), "dissatisfiable"),
         ("or_b(pk,a:sha256) claimed signed", Frag::OrB(Box::new(pk(0)), Box::new(Frag::Alt(Box::new(Frag::Sha256(1))))), Box::new(|t: &mut Type| t.mall.signed = true), "signed"),
